@@ -246,7 +246,7 @@ theorem stepEndTag_spec (H : List Handler) (enc : Enc) (s : St) (name raw : Byte
   have hf := flushPendingText_frame H enc s
   have hfo := flushPendingText_out H enc s
   have h1 := h.of_frame hf
-  unfold endTagToken stepEndTag
+  unfold endTagToken stepEndTag emitEndTag
   simp only
   generalize (flushPendingText H enc s) = f at hf hfo h1
   obtain ⟨s1, o1⟩ := f
